@@ -954,10 +954,13 @@ def _poly_of_text(text):
     return n, d
 
 
-@rule("C17.sequences", props=["C17", "C11", "C12"], min_instances=18, mutants=[
+@rule("C17.sequences", props=["C17", "C11", "C12"], min_instances=21, mutants=[
     ("a plain number becomes the numerator as it is", ("polynomial", "        elif not isinstance(numer, Polynomial):\n            numer = Polynomial([[numer]])  # A plain number.\n", "")),
     ("a polynomial operand is wrapped as a coefficient", ("polynomial", "        if not isinstance(other, self.__class__):\n            other = self.__class__(other)\n\n        if self == 0: return self", "        if not isinstance(other, self.__class__):\n            other = self.__class__([[other]])\n\n        if self == 0: return self")),
-    ("the zeroth power asks the addition chain for 0", ("polynomial", "    def __pow__(self, power, modulo=None):\n        if power == 0:\n            return self.__class__([[1]])\n        if power < 0:\n            *_, last", "    def __pow__(self, power, modulo=None):\n        if power < 0:\n            *_, last")),
+    ("the zeroth power asks the addition chain for 0", ("polynomial", "        if power == 0:\n            return self.__class__([[1]])\n        if power < 0:\n            *_, last", "        if power < 0:\n            *_, last")),
+    ("a root of a fraction goes to the integer addition chains", ("polynomial", "        if power != int(power):\n            return self.tosympy() ** power  # Roots are not rational functions: hand over to sympy.\n", "")),
+    ("a root of a polynomial goes to the integer addition chains", ("polynomial", "        if power != int(power):\n            return self.tosympy() ** power  # Roots are not polynomials: hand over to sympy.\n", "")),
+    ("a root is rounded to an integer power", ("polynomial", "        if power != int(power):\n            return self.tosympy() ** power  # Roots are not polynomials: hand over to sympy.\n", "        power = round(power)\n")),
     ("the copy constructor reads the denominator of the numerator", ("polynomial", "            numer, denom = numer.numer, numer.denom", "            numer = numer.numer\n            denom = numer.denom")),
 ])
 def sequences(ctx):
@@ -967,6 +970,29 @@ def sequences(ctx):
     wrapped as a coefficient, are wrong even when the printed value looks right)."""
     repo = ctx.repo
     fn = ctx.func(f"{RP}.__init__")
+    from ..absint import Env
+    # roots: the generated square root (norm, normalized, sqrt, ** 0.5 inside a symbolic=True registered function) is applied to
+    # these classes.  A root is no rational function, so the only right answers leave the two classes (sympy, not followed here);
+    # raising, or answering with a polynomial / fraction, are both wrong.
+    for label, text in (("half power of a polynomial", "(pa + pb) ** 0.5"), ("half power of a fraction", "(a / b) ** 0.5"),
+                        ("half power of a fraction, reflected use", "1 / ((a / b) ** 0.5)")):
+        c = f"{RP}#sequence:{label}"
+        it = new_interp(repo)
+        env_vals = {"a": mk(it, "RationalPolynomial", [[1, "a"]]), "b": mk(it, "RationalPolynomial", [[1, "b"]]),
+                    "pa": mk(it, "Polynomial", [[1, "a"]]), "pb": mk(it, "Polynomial", [[1, "b"]])}
+        try:
+            v = it.eval(ast.parse(text, mode="eval").body, Env(dict(env_vals), {}, "polynomial", it))
+        except NoValue as exc:
+            ctx.ok(c, fn, outcome=f"leaves the interpreted classes ({exc})")
+            continue
+        except Raised as r:
+            ctx.violation(c, f"`{text}` raises {r.name}: norm(), normalized(), sqrt() and ** 0.5 cannot be used inside a function registered "
+                             f"with symbolic=True (the generated root is applied to these coefficients)", fn)
+            continue
+        if isinstance(v, Obj) and v.kind in ("RationalPolynomial", "Polynomial") or isinstance(v, (int, float)):
+            ctx.violation(c, f"`{text}` is answered with {v!r}: the root of a + b / of a / b is no polynomial or fraction, so the value is wrong", fn)
+        else:
+            ctx.ok(c, fn, outcome=f"handed over ({v!r})")
     for label, text, wn, wd in SEQUENCE_CELLS:
         c = f"{RP}#sequence:{label}"
         it = new_interp(repo)
